@@ -314,6 +314,9 @@ func (vc *VC) rangeInit(fr *Frame, x *ssa.Range) SV {
 	vc.guardCheckMap(fr, x.X, false)
 	empty := fmt.Sprintf("((as const (Array %s Bool)) false)", mi.KSort)
 	fr.iters[x] = &mapIter{mi: mi, ref: ref, visited: empty, keyT: mt.Key(), valT: mt.Elem()}
+	if vc.usesRangeCount(fr) {
+		vc.assume(eq(vc.mcard(mi, empty), bvLitI(0, 64)))
+	}
 	return SV{L: []string{"0"}}
 }
 
@@ -336,6 +339,15 @@ func (vc *VC) rangeNext(fr *Frame, x *ssa.Next) SV {
 		out.L = append(out.L, vc.def(li.Sort, sel(vc.mapVal(mi, it.ref, j), k)))
 	}
 	nv := vc.def("(Array "+mi.KSort+" Bool)", ite(ok, sto(it.visited, k, "true"), it.visited))
+	if vc.usesRangeCount(fr) {
+		// cardinality of the visited set (named rangecount in loop invariants): it grows by one with
+		// every entry enumerated and, the map not being written during the loop (checked in
+		// usesRangeCount), equals the map's cardinality when the enumeration ends
+		c0, c1 := vc.mcard(mi, it.visited), vc.mcard(mi, nv)
+		vc.assume(and("(bvsle (_ bv0 64) "+c0+")", "(bvslt "+c0+" (_ bv4611686018427387904 64))"))
+		vc.assume(implies(ok, eq(c1, "(bvadd "+c0+" (_ bv1 64))")))
+		vc.assume(implies(not(ok), eq(c0, vc.mcard(mi, dom))))
+	}
 	it.visited = nv
 	return out
 }
@@ -370,4 +382,39 @@ func (vc *VC) uintptrToPtr(a SV) SV {
 		vc.fail("conversion uintptr -> unsafe.Pointer of a value not derived from a pointer")
 	}
 	return SV{L: []string{a.LV.Ref}, LV: a.LV, POff: a.POff}
+}
+
+// usesRangeCount: the contract of the function under execution mentions `rangecount`, and the
+// function writes no map (no m[k] = v, no delete), so that the set of entries enumerated by a
+// range loop is a subset of the map throughout.
+func (vc *VC) usesRangeCount(fr *Frame) bool {
+	if fr == nil || fr.fi == nil || fr.fi.C == nil {
+		return false
+	}
+	uses := false
+	for _, cs := range fr.fi.C.LoopInv {
+		for _, c := range cs {
+			for _, n := range c.Locals {
+				if n == "rangecount" {
+					uses = true
+				}
+			}
+		}
+	}
+	if !uses {
+		return false
+	}
+	for _, b := range fr.fn.Blocks {
+		for _, ins := range b.Instrs {
+			switch x := ins.(type) {
+			case *ssa.MapUpdate:
+				vc.fail("rangecount used in %s, which writes a map", fr.fn.Name())
+			case *ssa.Call:
+				if bi, ok := x.Call.Value.(*ssa.Builtin); ok && bi.Name() == "delete" {
+					vc.fail("rangecount used in %s, which deletes from a map", fr.fn.Name())
+				}
+			}
+		}
+	}
+	return true
 }
